@@ -75,6 +75,7 @@ static Plan minimise(const Workload& w, const Plan& orig, const Violation& targe
 }
 
 int main(int argc, char** argv) {
+    std::vector<std::pair<std::string, double>> overrides;
     std::string workload, tier = "quick", focus, planfile; uint64_t s0 = 1, s1 = 1; bool do_min = true, print_plan = false; double dual_frac = 0.0; int min_budget = 150;
     for (int i = 1; i < argc; i++) {
         std::string a = argv[i];
@@ -88,6 +89,7 @@ int main(int argc, char** argv) {
         else if (a == "--print-plan") print_plan = true;
         else if (a == "--dual") dual_frac = atof(next().c_str());
         else if (a == "--min-budget") min_budget = atoi(next().c_str());
+        else if (a == "--set") { std::string kv = next(); size_t e = kv.find('='); if (e != std::string::npos) overrides.push_back({kv.substr(0, e), atof(kv.c_str() + e + 1)}); }   // overrides a parameter of every generated plan
         else if (a == "--list") { for (auto& kv : registry()) printf("%s\n", kv.first.c_str()); return 0; }
     }
     setvbuf(stdout, nullptr, _IOLBF, 0);
@@ -108,6 +110,7 @@ int main(int argc, char** argv) {
     int any_viol = 0;
     for (uint64_t seed = s0; seed <= s1; seed++) {
         Plan pl = have_file ? fileplan : w.gen(seed, tier, focus);
+        if (!have_file) for (auto& kv : overrides) pl.p[kv.first] = kv.second;
         if (print_plan) { printf("%s", pl.to_text().c_str()); continue; }
         printf("@@BEGIN %llu\n", (unsigned long long)seed); fflush(stdout);
         RunResult r = w.run(pl);
